@@ -461,6 +461,7 @@ func init() {
 			}
 			return in.fmtInt(a[0], 64, true)
 		},
+		"github.com/creack/pty.Setsize": intrNoop,
 		"sort.Slice":       intrSortSlice,
 		"sort.SliceStable": intrSortSlice,
 
